@@ -17,6 +17,7 @@ import (
 	"sort"
 	"strconv"
 	"strings"
+	"time"
 
 	"github.com/dop251/goja"
 	"pgregory.net/rapid"
@@ -119,6 +120,14 @@ func (op *AOp) src() string {
 		return op.Dst + " = " + x
 	case "set":
 		return x + op.Step.acc() + " = " + op.Val.src()
+	case "badset":
+		// an assignment of a primitive to a struct-typed slot: no conversion exists, so it fails (by a TypeError in strict
+		// code, N != 0) and must leave everything as it was
+		strict := ""
+		if op.N != 0 {
+			strict = "\"use strict\"; "
+		}
+		return "(function() { " + strict + "try { " + x + op.Step.acc() + " = " + op.Cmp + "; return \"assigned\"; } catch (e) { return e instanceof TypeError ? \"TypeError\" : \"other: \" + e; } })()"
 	case "delete":
 		return "delete " + x + op.Step.acc()
 	case "setlen":
@@ -552,6 +561,8 @@ func (w *world) apply(op *AOp) (pred prediction, err error) {
 	switch op.Op {
 	case "grab":
 		w.handles[op.Dst] = n
+	case "badset":
+		// fails: nothing changes, nothing is detached
 	case "set":
 		err = w.setSlot(n, *op.Step, op.Val)
 	case "delete":
@@ -829,6 +840,12 @@ func judgeAlias(c *AliasCase) *evid.Failure {
 }
 
 func checkPrediction(c *AliasCase, i int, op *AOp, p prediction, got goja.Value) *evid.Failure {
+	if op.Op == "badset" {
+		if s := got.String(); s != "TypeError" && s != "assigned" {
+			return aFail(c, i, "result:badset", "`%s` evaluated to %q: a failing assignment to a wrapped Go value may throw a TypeError only", op.src(), s)
+		}
+		return nil
+	}
 	switch {
 	case p.ret != nil:
 		if got.ToBoolean() != *p.ret {
@@ -1305,6 +1322,45 @@ func (g *aliasGen) genOp(kind string) *AOp {
 			v = nullPointers(w.mapper, v, st, inPlace)
 		}
 		return &AOp{Op: "set", H: pos.h, Path: pos.path, Step: &step, Val: v}
+	case "badset":
+		pos, hotStep := g.walkOrHot(2)
+		n := pos.n
+		var step PathStep
+		var st reflect.Type
+		switch n.loc.Kind() {
+		case reflect.Slice, reflect.Array:
+			l := n.loc.Len()
+			if l == 0 {
+				return nil
+			}
+			step = PathStep{Kind: "index", Index: rapid.IntRange(0, l-1).Draw(g.t, "bidx")}
+			if hotStep != nil && hotStep.Kind == "index" && hotStep.Index < l {
+				step = *hotStep
+			}
+			st = n.loc.Type().Elem()
+		case reflect.Struct:
+			slots := g.slotsOf(n)
+			if len(slots) == 0 {
+				return nil
+			}
+			step = slots[rapid.IntRange(0, len(slots)-1).Draw(g.t, "bslot")]
+			if hotStep != nil {
+				step = *hotStep
+			}
+			cur, ok := w.fieldSlot(n, step.Field)
+			if !ok {
+				return nil
+			}
+			st = cur.Type()
+		default:
+			return nil
+		}
+		// only plain struct types: no string/number converts to them (types with methods may implement conversions)
+		if st.Kind() != reflect.Struct || hasMethods(st) || st == reflect.TypeOf(time.Time{}) {
+			return nil
+		}
+		bad := []string{"\"x\"", "7", "true"}[rapid.IntRange(0, 2).Draw(g.t, "badval")]
+		return &AOp{Op: "badset", H: pos.h, Path: pos.path, Step: &step, Cmp: bad, N: rapid.IntRange(0, 1).Draw(g.t, "badstrict")}
 	case "delete":
 		pos, hotStep := g.walkOrHot(2)
 		slots := g.slotsOf(pos.n)
@@ -1583,7 +1639,7 @@ func hasTrackedSlot(td *gobridge.TypeDesc) bool {
 	})
 }
 
-var aliasOpKinds = []string{"grab", "grab", "grab", "set", "set", "set", "set", "delete", "setlen", "push", "pop", "shift", "unshift", "splice", "setbeyond",
+var aliasOpKinds = []string{"grab", "grab", "grab", "set", "set", "set", "set", "badset", "badset", "delete", "setlen", "push", "pop", "shift", "unshift", "splice", "setbeyond",
 	"reverse", "sort", "sort", "forindel", "keys", "json", "spread", "hasown", "eq", "eq", "call", "go", "go", "go"}
 
 func genAlias(t *rapid.T) (*AliasCase, map[string]int) {
